@@ -126,10 +126,22 @@ func c08Rules(c *Ctx) {
 				// (ii) participating: the target is an element of the sorted list of participating members, or
 				// was looked up (comma-ok) in the working assignment
 				participating := false
-				if sl, _, isElem := rangeElem(fi, target); isElem {
-					if pr := paramOfCell(canon(sl)); pr != nil && pr.Name() == "sortedCurrentSubscriptions" {
-						participating = true
+				// the sorted list of participating members and the working assignment are identified by their role at
+				// this very call: they are what the caller passes on to the mover under those parameters
+				calleeFn := p.Fn(callee)
+				argOf := func(name string, fallback int) ssa.Value {
+					if calleeFn == nil {
+						return nil
 					}
+					if i := paramIdxByName(calleeFn, name, fallback); i < len(a) {
+						return a[i]
+					}
+					return nil
+				}
+				sortedArg := argOf("sortedCurrentSubscriptions", 3)
+				workingArg := argOf("currentAssignment", map[string]int{"stickyBalanceStrategy.reassignPartition": 2, "stickyBalanceStrategy.processPartitionMovement": 3}[callee])
+				if sl, _, isElem := rangeElem(fi, target); isElem && sortedArg != nil && samePath(sl, sortedArg) {
+					participating = true
 				}
 				var path2 []*ssa.BasicBlock
 				if !participating {
@@ -142,8 +154,7 @@ func c08Rules(c *Ctx) {
 						if !isL || !samePath(lk.Index, target) {
 							return false
 						}
-						pr := paramOfCell(canon(lk.X))
-						return pr != nil && pr.Name() == "currentAssignment"
+						return workingArg != nil && samePath(lk.X, workingArg)
 					}
 					participating, path2 = reg.Guarded(s, Truth{inWorking, true})
 				}
